@@ -340,7 +340,7 @@ Definition backend_entry (s : vfs) (a : ans) (idx : N) : outcome reply :=
 (* callbacks of readdir: entries are offered one by one to the closure of the Vfs, which converts and hands
    them to the caller's add_entry; the caller accepts [limit] entries, then answers Ok(0).
    A conversion error aborts with that error (scripted backend and pseudo fs both propagate it). *)
-Fixpoint feed {A} (conv : A -> outcome (dirent * option entry)) (limit : nat) (l : list A)
+Fixpoint feed {A} (conv : A -> outcome (dirent * option entry)) (limit : nat) (l : list A) {struct l}
   : outcome (list (dirent * option entry)) :=
   match l with
   | [] => Ok []
